@@ -9,7 +9,7 @@ META = {
     'rule': ('cases = curve x 5 metrics x 2 distances x 3 orderings x threshold placed around the curve\'s own global-cost '
              'ladder {cost(S_k)} (so that k* spreads over 2..n) x min_points in 0..n+2 x shuffled threshold lists for '
              'min_point_rdp; the monitors on grdp / mp_grdp / min_point_rdp recompute the fixed-size chain S_k with the '
-             'saved rdp_fixed and the global cost with a fresh cache and demand exact equality of index arrays. '
+             'saved rdp_fixed and the global cost with a fresh cache and demand exact equality of index arrays (curves above 260 points: bounded walk S_2..S_m when the answer has m <= 12 points; one 66000..90000-point trace per shard 0-2). '
              'distinct = digest(curve, configuration); non-trivial = 2 < k* < n'),
     'require': {'grdp': 1200, 'mp_grdp': 1200, 'min_point_rdp': 1200, 'nontrivial': 300},
     'scale': {'quick': 1, 'thorough': 30},
